@@ -316,6 +316,8 @@ pub fn families() -> Vec<Box<dyn Family>> {
             |idx, cfg, out| {
                 let mut rng = Rng::for_case(cfg.seed, "c12.textdiff", idx);
                 let (a, b) = gen::rand_pair(&mut rng, if cfg.tiny { 8 } else { 150 });
+                // every 16th case: IDENTICAL non-empty texts (no changes means no groups, for every radius)
+                let b = if idx % 16 == 5 && !a.is_empty() { a.clone() } else { b };
                 let alg = ALGS[rng.below(3)];
                 let sa: Vec<String> = a.iter().map(|x| format!("l{}\n", x)).collect();
                 let sb: Vec<String> = b.iter().map(|x| format!("l{}\n", x)).collect();
@@ -325,7 +327,14 @@ pub fn families() -> Vec<Box<dyn Family>> {
                 let r = guard(|| {
                     let d = TextDiff::configure().algorithm(alg).diff_slices(&ra, &rb);
                     let ops = d.ops().to_vec();
-                    let n = *Rng::for_case(cfg.seed, "c12.textdiff.n", idx).pick(&NS);
+                    // radii: the list, plus values that only differ from small ones above bit 16 / 31 / 32
+                    let n = if idx % 16 == 5 {
+                        [usize::MAX, 0, usize::MAX - 1, 3][(idx / 16 % 4) as usize]
+                    } else if idx % 5 == 0 {
+                        *Rng::for_case(cfg.seed, "c12.textdiff.n", idx).pick(&[(1usize << 32), (1 << 32) + 1, (1 << 32) + 2, (1 << 16) + 1, (1 << 31) + 3, (1 << 63) + 2, (1 << 33) + 1, u32::MAX as usize, u32::MAX as usize + 3])
+                    } else {
+                        *Rng::for_case(cfg.seed, "c12.textdiff.n", idx).pick(&NS)
+                    };
                     // the same diff object is asked several times with other radii first
                     let _ = d.grouped_ops(NS[(idx % 14) as usize]);
                     let _ = d.grouped_ops(1);
